@@ -69,7 +69,7 @@ func Run(f func()) (events []string) {
 }
 
 func next(kind, name string) string {
-	for cur.pos < len(cur.In) && cur.In[cur.pos].K == "lz" {
+	for cur.pos < len(cur.In) && (cur.In[cur.pos].K == "lz" || cur.In[cur.pos].K == "until") {
 		cur.pos++ // pattern entries are looked up by name
 	}
 	if cur.pos >= len(cur.In) {
@@ -371,4 +371,21 @@ func AltBase64(s string) (string, bool) {
 		}
 	}
 	return s, false
+}
+
+// NativeRetryUntil lets a harness repeat a randomised step natively until an observed integer (e.g. the length
+// of a signature) equals the value it had on the symbolic path being replayed. Symbolic run: records the value
+// and returns true.
+func NativeRetryUntil(name string, observed int) bool {
+	want := observed
+	for _, e := range cur.In {
+		if e.K == "until" && e.N == name {
+			want, _ = strconv.Atoi(e.V)
+		}
+	}
+	if observed == want {
+		return true
+	}
+	cur.retries++
+	return cur.retries > 300000
 }
